@@ -92,6 +92,9 @@ def pool(seed):
     P = {}
     P['dfa'] = [fag.random_dfa(rng, n, k) for (n, k) in ((1, 1), (3, 2), (4, 2), (5, 2), (4, 3))] + [h[1] for h in fag.hostile_dfas(rng)][-3:]
     P['dfa_names'] = fag.random_dfa(rng, 3, 2, names=['start', 'accept', 'trap1'])
+    # mid-size DFAs for the set-order sensitive fixpoint / refinement / elimination loops (their pair, block and elimination
+    # orders come from set iteration, i.e. from the hash seed; a loop that stops early does so for a few per cent of the orders)
+    P['dfa_mid'] = [fag.random_dfa(rng, n, k, p_final=pf) for (n, k) in ((5, 2), (6, 2), (7, 2), (8, 2), (6, 3), (8, 3)) for pf in (0.3, 0.5) for _ in range(4)]
     P['nfa'] = []
     for (n, k, e) in ((1, 1, 0.5), (3, 2, 0.3), (4, 2, 0.8), (5, 2, 0.4), (3, 1, 1.2)):
         P['nfa'].append((fag.random_nfa(rng, n, k, eps_density=e), rng.choice(['', '_', 'ε']), rng.choice(adapt.NFA_KINDS)))
@@ -193,6 +196,10 @@ def catalogue(P, with_checkers=True):
             add('dfa_isomorphic#%d,%d' % (i, j), da.dfa_isomorphic, B2, d_val)
             add('check_equal_languages(DFA)#%d,%d' % (i, j), lg.check_equal_languages, B2 + [lambda: 3], d_feedback)
         add('dfa_isomorphic1#%d,copy' % i, da.dfa_isomorphic1, B + [lambda R=R: adapt.build_dfa(fag.rename(R, {q: 'c_' + q for q in R[0]}))], d_val)
+    for i, R in enumerate(P.get('dfa_mid', [])):
+        B = [lambda R=R: adapt.build_dfa(R)]
+        for f in ('dfa_minimize', 'dfa_quotient', 'dfa_hopfcroft', 'dfa_no_extend', 'dfa_no_prefix'):
+            add('%s#mid%d' % (f, i), getattr(da, f), B, d_fa)
     for i, (R, eps, kind) in enumerate(P['nfa']):
         B = [lambda R=R, eps=eps, kind=kind: adapt.build_nfa(R, eps, kind)]
         add('nfa_to_dfa#%d' % i, na.nfa_to_dfa, B, d_fa)
